@@ -211,7 +211,11 @@ static int nchlds;        /* in start order, never compacted: X k addresses the 
 
 struct ev_loop *ev_default_loop(unsigned int f) { (void)f; return &the_loop; }
 void ev_loop_destroy(EV_P) { (void)loop; }
-void ev_loop_fork(EV_P) { (void)loop; }
+/* libev 4.31 and later keep a timerfd next to the periodics; ev_loop_fork() makes the next iteration re-create it and
+ * feed its watcher, whose callback (invoked after the callbacks fed by periodics_reify) reads the clock afresh and runs
+ * periodics_reschedule(): every periodic's reschedule_cb is called with the time the iteration's callbacks ended */
+static int hx_postfork;
+void ev_loop_fork(EV_P) { (void)loop; hx_postfork = 1; }
 void ev_break(EV_P_ int how) { (void)how; loop->broken = 1; }
 int ev_loop(EV_P_ int flags) { (void)loop; (void)flags; return 0; }
 void ev_timer_start(EV_P_ ev_timer *w) { (void)loop; w->active = 1; }
@@ -241,8 +245,20 @@ void ev_child_stop(EV_P_ ev_child *w) { (void)loop; w->active = 0; }
 
 static void child_exit(int k, int status);
 
+static void periodics_reschedule(ev_tstamp now)
+{
+/* libev: after a jump of the wall clock, and from the timerfd callback */
+	for (int i = 0; i < npers; i++) {
+		if (pers[i]->reschedule_cb) pers[i]->at = pers[i]->reschedule_cb(pers[i], now);
+	}
+}
+
+static ev_tstamp hx_busy;	/* how long the callbacks of the coming iteration take on the wall clock (TB) */
+
 static void loop_iteration(ev_tstamp now, int exit_k)
 {
+	const int forked = hx_postfork;
+	hx_postfork = 0;
 /* libev 4.33 periodics_reify + invoke_pending: due watchers (at < now) are re-armed through
  * reschedule_cb (or stopped) in heap order, then their callbacks run in the same order */
 	static ev_periodic *pend[4096];
@@ -274,6 +290,12 @@ static void loop_iteration(ev_tstamp now, int exit_k)
 		pend[i]->pending = 0;
 		pend[i]->cb(&the_loop, pend[i], 0);
 	}
+	if (forked) {
+		/* the timerfd watcher was fed first and is invoked last */
+		the_loop.now = now + hx_busy;
+		periodics_reschedule(now + hx_busy);
+	}
+	hx_busy = 0;
 }
 
 /* ---------------------------------------------------------------- helpers */
@@ -373,6 +395,18 @@ static void do_op(char *op)
 	if (n == 0) return;
 	if (!strcmp(a[0], "T") && n >= 2) {
 		loop_iteration(strtod(a[1], NULL), -1);
+		drain_spawns(sp0);
+	} else if (!strcmp(a[0], "TB") && n >= 3) {
+		/* TB now busy: an iteration whose callbacks take `busy` seconds of wall clock */
+		hx_busy = strtod(a[2], NULL);
+		loop_iteration(strtod(a[1], NULL), -1);
+		drain_spawns(sp0);
+	} else if (!strcmp(a[0], "J") && n >= 2) {
+		/* J now: the wall clock is stepped to `now` (NTP step, resume): libev's time_update() notices the jump against
+		 * the monotonic clock and runs periodics_reschedule() before the timers of the iteration are looked at */
+		the_loop.now = strtod(a[1], NULL);
+		periodics_reschedule(the_loop.now);
+		loop_iteration(the_loop.now, -1);
 		drain_spawns(sp0);
 	} else if (!strcmp(a[0], "TX") && n >= 3) {
 		/* a loop iteration in which the k-th child is reaped as well */
